@@ -111,6 +111,7 @@ func WriteFileAt(dir *os.File, filename string, data []byte, perm os.FileMode) e
 	verifKillPoint("after-close", filename)
 	if werr == nil {
 		werr = unix.Renameat(int(dir.Fd()), tempname, int(dir.Fd()), filename)
+		verifKillPoint("after-rename", filename)
 	}
 	if werr != nil {
 		// don't leave an incomplete file behind
